@@ -471,7 +471,7 @@ class CommitSqliteExporter:
                     )
                     value = record_column.value
 
-                    if isinstance(value, bytearray):
+                    if isinstance(value, (bytes, bytearray)):
                         if text_affinity:
                             value = value.decode(database_text_encoding, "replace")
                         else:
